@@ -278,10 +278,22 @@ class PipeOps(FullOps):
         if self.strict_atoms and isinstance(val, SetV) and val.items is None and val.atoms:
             return True  # scenario mode: atoms denote non-empty sets
         m = env.module.name if env is not None else ""
-        if m.endswith("tensor_dict") and env.fn is not None and env.fn.name.startswith("_check"):
+        if m.endswith("tensor_dict") and env.fn is not None and self._is_shape_guard(env.fn):
             self.ev("assumed_consistent", test_expr)
             return False
         return None
+
+    _SHAPE_GUARDS: dict = {}
+
+    def _is_shape_guard(self, fi) -> bool:
+        """A shape-consistency check of the typed dictionaries: a function of the tensor-dictionary module (not the key check,
+        which compares key SETS) every raise of which is a ValueError about the shapes of the stored values."""
+        k = id(fi.node)
+        if k not in self._SHAPE_GUARDS:
+            raises = [x for x in ast.walk(fi.node) if isinstance(x, ast.Raise)]
+            reads_shape = any(isinstance(x, ast.Attribute) and x.attr in ("shape", "ndim") for x in ast.walk(fi.node))
+            self._SHAPE_GUARDS[k] = bool(raises) and reads_shape and all("ValueError" in ast.unparse(x) for x in raises)
+        return self._SHAPE_GUARDS[k]
 
     def contains(self, container, item, negate, node):
         # membership of a key in a key collection: the element-wise spelling of an intersection test
